@@ -5,6 +5,8 @@ import json, os, re, shutil, subprocess, sys, tempfile
 src = sys.argv[1].rstrip("/")
 pid = re.findall(r"C\d\d", src)[0]
 k = os.path.basename(src)
+if len(sys.argv) > 2:
+    k = str(int(k) + int(sys.argv[2]))   # offset for later waves
 name = f"{pid}-{k}"
 patch = os.path.join(src, "patch.diff")
 demo = next((os.path.join(src, f) for f in ("demo.py", "test_demo.py") if os.path.exists(os.path.join(src, f))), None)
